@@ -7,7 +7,7 @@ from ..buscheck import fld, hexname, Tracker
 MODULE = "Dbus.Props.C06"
 THEOREMS = ["lastVerdict_eq_decide", "lastVerdict_append", "send_rule_matches_as_documented", "receive_rule_matches_as_documented",
             "own_rule_matches_as_documented", "send_decision_as_documented", "receive_decision_as_documented",
-            "own_decision_as_documented", "f16_witness", "contexts_in_order", "later_context_wins", "unmatched_context_transparent",
+            "own_decision_as_documented", "reloaded_policy_governs", "own_denied_after_reload", "f16_witness", "contexts_in_order", "later_context_wins", "unmatched_context_transparent",
             "nothing_allowed_by_default", "gate_denies_with_access_denied", "gate_checks_sender_and_recipient",
             "denied_request_changes_nothing", "denied_message_reaches_no_one"]
 BUS = "org.freedesktop.DBus"
@@ -126,6 +126,12 @@ def _job(args):
         else:
             pol = gen_policy(r)
             ops, stats = busgen.history(r, n_ops, weights=W, max_conns=5, uids=UIDS)
+        if r.random() < 0.6:
+            # the configuration is replaced while everybody stays connected: from then on the new rules decide, also about names
+            # a connection already owns and calls that are already outstanding
+            k = r.randint(len(ops) // 3, max(len(ops) // 3, 2 * len(ops) // 3))
+            newpol = gen_policy_dest(r) if seed % 3 == 0 else gen_policy(r)
+            ops.insert(k, ("reload", newpol.rules)); stats["reload"] = 1
         steps, died, unique = busdiff.run_impl(ops, pol, None, "")
         diff = busdiff.compare(ops, pol, None, "", impl=(steps, died, unique))
         isteps = busdiff.dump_steps(steps)
@@ -198,6 +204,49 @@ def absent_field_scenarios(ctx):
     ctx.coverage.setdefault("histories", {})["absent-fields"] = {"configurations": len(res) - len(infra), "ops_per_history": len(jobs[0][1])}
 
 
+def reload_scenarios(ctx):
+    """own rules after a reload: a connection that owns a name (or waits for it) under the old configuration asks again under a
+    new one that denies it - the request must be refused and change nothing; and the other way round"""
+    from ..bus import method_call, BUS_PATH
+    from concurrent.futures import ProcessPoolExecutor
+    hello = lambda: method_call(1, BUS, BUS_PATH, BUS, "Hello").marshal()
+    def req(s, name, fl):
+        return method_call(s, BUS, BUS_PATH, BUS, "RequestName", "su", [name.encode(), fl]).marshal()
+    def q(s, name):
+        return method_call(s, BUS, BUS_PATH, BUS, "ListQueuedOwners", "s", [name.encode()]).marshal()
+    base = [("connect", 0, 0, False), ("send", 0, hello()), ("connect", 1, 0, False), ("send", 1, hello()), ("connect", 2, 0, False), ("send", 2, hello())]
+    allow = [("default", True, {"user": "*"})] + busdiff.SESSION.rules + HARNESS + [("mandatory", True, {"send_destination": BUS, "send_interface": BUS})]
+    jobs = []
+    for deny_attr in ({"own": "com.example.A"}, {"own_prefix": "com.example"}, {"own": "*"}):
+        deny = allow[:-len(HARNESS) - 1] + [("default", False, deny_attr)] + HARNESS + [("mandatory", True, {"send_destination": BUS, "send_interface": BUS})]
+        for f1, f2, f3 in ((1, 0, 2), (0, 0, 3), (1, 0, 0), (3, 4, 7), (1, 1, 6)):
+            ops = list(base)
+            ops += [("send", 1, req(5, "com.example.A", f1)), ("send", 2, req(5, "com.example.A", f2)), ("send", 0, q(5, "com.example.A")),
+                    ("reload", deny),
+                    ("send", 2, req(6, "com.example.A", f3)), ("send", 1, req(6, "com.example.A", f3)), ("send", 0, q(6, "com.example.A")),
+                    ("send", 0, req(7, "com.example.A", 0)),
+                    ("reload", allow),
+                    ("send", 2, req(7, "com.example.A", f3)), ("send", 0, q(7, "com.example.A"))]
+            jobs.append((allow, ops))
+    with ProcessPoolExecutor(14) as ex:
+        res = list(ex.map(_absent_job, jobs, chunksize=1))
+    infra = [r for r in res if "infra" in r]
+    if len(infra) > 3:
+        raise InfraError("reload scenarios failed: " + infra[0]["infra"][:500])
+    bad = [r for r in res if "infra" not in r and (r["diff"] is not None or r["died"])]
+    for r in bad[:3]:
+        d = r["diff"] or {}
+        a, b = d.get("impl", []), d.get("model", [])
+        decision = d.get("kind") == "delivery" and (len(a) != len(b) or any(("4163636573734465" in x) != ("4163636573734465" in y) for x, y in zip(a, b)))
+        ctx.violate("after the configuration was reloaded the daemon's answer to a RequestName differs from the documented evaluation of the new rules "
+                    "(a denied request changes no ownership, whoever asks): step %s %s" % (d.get("step"), (d.get("op") or "")[:60]),
+                    {"kind": "bus-history", "label": "reload-scenarios", "seed": 0, "policy": r["rules"], "limits": None, "extra": "", "ops": r["ops"],
+                     "diff": r["diff"]}, failing_input=bool(decision) or bool(r["died"]))
+    ctx.oblige("correspondence (reload scenarios): %d histories in which own rules change under a connection that owns or waits for the name" % (len(res) - len(infra)),
+               "correspondence", not bad)
+    ctx.coverage.setdefault("histories", {})["reload-scenarios"] = {"histories": len(res) - len(infra)}
+
+
 def f16_scenario(ctx):
     """the recorded departure F16 on the real daemon: <deny send_path=...> also hits messages that have no path"""
     pol = busdiff.Policy([("default", True, {"user": "*"})] + busdiff.SESSION.rules +
@@ -252,6 +301,8 @@ def run(ctx):
         "harness_failures": len(infra)}}
     ctx.coverage["evaluations"] = len(good) * L
     absent_field_scenarios(ctx)
+    reload_scenarios(ctx)
+    ctx.coverage["histories"]["generated-policy"]["histories_with_a_reload"] = sum(1 for r in good if r["stats"].get("reload"))
     diff, got_reply, refused = f16_scenario(ctx)
     ctx.oblige("F16 scenario: model = daemon on <deny send_path> against a reply without path", "correspondence", diff is None,
                json.dumps(diff)[:300] if diff else "")
